@@ -201,7 +201,9 @@ fn c04_class(ops: &[Op], step: usize) -> &'static str {
     let older_same_src = ops[..step]
         .iter()
         .any(|p| p.ts.node() == op.ts.node() && p.src == op.src && p.ts > op.ts);
-    if older_same_src {
+    if ops[..step].iter().any(|p| p.key == op.key && p.ts == op.ts && p.del == op.del) {
+        "redelivered-operation"
+    } else if older_same_src {
         "older-than-newest-from-same-origin-on-same-source"
     } else {
         "other"
@@ -278,6 +280,27 @@ fn c04_exhaustive(report: &mut Report, args: &Args, len: usize, nsrc: usize) {
                 out.sample = Some(json!({"sources": nsrc, "arrival": ops.iter().map(op_json).collect::<Vec<_>>()}));
             }
             local.push(out);
+            // re-deliveries: one operation of the sequence arrives a second time (same key, stamp and
+            // kind; through any source) at any later point. Nothing may change, and both the return
+            // value and will_apply must say so.
+            if len <= 3 {
+                for p in 0..len {
+                    for q in (p + 1)..=len {
+                        for src in 0..nsrc {
+                            let mut again = ops.clone();
+                            again.insert(q, Op { src, ..ops[p] });
+                            let mut out = CaseOut::default();
+                            if nsrc == 1 {
+                                c04_case::<1>(&again, &keys, &mut out);
+                            } else {
+                                c04_case::<2>(&again, &keys, &mut out);
+                            }
+                            out.count("sequences_with_a_redelivery", 1);
+                            local.push(out);
+                        }
+                    }
+                }
+            }
         }
         sub.lock().append(&mut local);
         CaseOut::default()
@@ -309,6 +332,15 @@ fn c04_random_ops(rng: &mut StdRng, nsrc: usize) -> Vec<Op> {
             ops.push(Op { key: rng.gen_range(0..3), ts: t, del: rng.gen_bool(0.45), src: rng.gen_range(0..nsrc) });
         }
     }
+    // re-deliveries of the same operation (same key, stamp, kind), possibly through the other source
+    if rng.gen_bool(0.4) {
+        for _ in 0..rng.gen_range(1..=3) {
+            let p = rng.gen_range(0..ops.len());
+            let q = rng.gen_range(p + 1..=ops.len());
+            let dup = Op { src: rng.gen_range(0..nsrc), ..ops[p] };
+            ops.insert(q, dup);
+        }
+    }
     ops
 }
 
@@ -316,7 +348,7 @@ pub fn c04(args: &Args) {
     let mut report = Report::new(
         args,
         "E0-crdt",
-        "exhaustive part: every ordered selection of L distinct stamps out of a pool of 6 (same-instant/other-node, counter, 4 ms tick, far apart; all inside one forgiveness window) x {2 keys} x {insert,delete} x {sources}, applied to a fresh OrSWotSet<1> and OrSWotSet<2>; random part: 6..14 operations, <= 4 origins, 3 keys. After EVERY operation: view of the key == LWW model (tuple order time@4ms,counter,node), return value == view changed == will_apply just before, other keys untouched. Non-trivial = at least two operations on one key; distinct = distinct (sources, arrival sequence).",
+        "exhaustive part: every ordered selection of L distinct stamps out of a pool of 6 (same-instant/other-node, counter, 4 ms tick, far apart; all inside one forgiveness window) x {2 keys} x {insert,delete} x {sources}, applied to a fresh OrSWotSet<1> and OrSWotSet<2>; plus, for L <= 3, every re-delivery of one operation of the sequence (same key, stamp, kind; any source) at every later position; random part: 6..14 operations, <= 4 origins, 3 keys, 40 % with 1-3 re-deliveries. After EVERY operation: view of the key == LWW model (tuple order time@4ms,counter,node), return value == view changed == will_apply just before, other keys untouched. Non-trivial = at least two operations on one key; distinct = distinct (sources, arrival sequence).",
     );
     if let Some(path) = &args.replay {
         let r = read_replay(path);
@@ -379,6 +411,10 @@ pub enum Regime {
     /// all stamps inside one forgiveness window; replicas apply arbitrary
     /// subsets in arbitrary order
     Window,
+    /// hour-scale stamps like Prefix, but a replica may have MISSED operations of an
+    /// origin (each origin's operations still arrive in stamp order): outside the
+    /// convergence precondition, used only for statements that carry none (C05, first sentence)
+    Gaps,
 }
 
 #[derive(Clone, Debug)]
@@ -399,7 +435,7 @@ pub fn gen_history(rng: &mut StdRng, regime: Regime, origins: u8, per: usize, ke
             loop {
                 let step = match regime {
                     // minutes to hours apart, so cut-offs move past earlier stamps
-                    Regime::Prefix => {
+                    Regime::Prefix | Regime::Gaps => {
                         if rng.gen_bool(0.5) {
                             rng.gen_range(1..1_500_000u64)
                         } else {
@@ -425,7 +461,7 @@ pub fn gen_history(rng: &mut StdRng, regime: Regime, origins: u8, per: usize, ke
                         // adopt an instant that does not lie before the step just taken
                         if regime == Regime::Window || *pick >= ts(t.saturating_sub(step * 4), 0, o) {
                             stamp = *pick;
-                            if regime == Regime::Prefix {
+                            if regime != Regime::Window {
                                 t = pick.datacake_timestamp().as_millis() as u64;
                             }
                         }
@@ -461,7 +497,7 @@ pub fn build_replica<const N: usize>(rng: &mut StdRng, h: &History, regime: Regi
     let mut s = OrSWotSet::<N>::default();
     let mut applied = Vec::new();
     match regime {
-        Regime::Prefix => {
+        Regime::Prefix | Regime::Gaps => {
             let lens: Vec<usize> = h.per_origin.iter().map(|v| rng.gen_range(0..=v.len())).collect();
             let mut idx = vec![0usize; lens.len()];
             loop {
@@ -472,6 +508,10 @@ pub fn build_replica<const N: usize>(rng: &mut StdRng, h: &History, regime: Regi
                 let o = *cand.choose(rng).unwrap();
                 let (key, stamp, del) = h.per_origin[o][idx[o]];
                 idx[o] += 1;
+                if regime == Regime::Gaps && rng.gen_bool(0.35) {
+                    // this operation never reached the replica
+                    continue;
+                }
                 let op = Op { key, ts: stamp, del, src: rng.gen_range(0..N) };
                 apply(&mut s, &op);
                 applied.push(op);
@@ -501,6 +541,7 @@ pub fn precondition_holds(h: &History, applied: &[Op], regime: Regime) -> bool {
                 _ => true,
             }
         },
+        Regime::Gaps => true,
         Regime::Prefix => {
             for (o, ops) in h.per_origin.iter().enumerate() {
                 let mine: Vec<HLCTimestamp> = applied.iter().filter(|a| a.ts.node() as usize == o).map(|a| a.ts).collect();
@@ -721,7 +762,7 @@ fn c03_exhaustive(report: &mut Report, args: &Args, regime: Regime) {
 
 fn c03_replay(report: &mut Report, r: &Value) {
     if r["mode"] == "random" {
-        let regime = if r["regime"] == "Prefix" { Regime::Prefix } else { Regime::Window };
+        let regime = if r["regime"] == "Prefix" { Regime::Prefix } else if r["regime"] == "Gaps" { Regime::Gaps } else { Regime::Window };
         let (seed, i, stream) = (r["seed"].as_u64().unwrap(), r["index"].as_u64().unwrap(), r["stream"].as_u64().unwrap());
         let out = if r["sources"].as_u64() == Some(1) { c03_case::<1>(seed, i, regime, stream) } else { c03_case::<2>(seed, i, regime, stream) };
         report.absorb(out);
@@ -908,7 +949,21 @@ fn c05_case<const N: usize>(seed: u64, i: u64, regime: Regime, stream: u64) -> C
     // hours apart, applying the newer batch first legitimately moves the only
     // cut-off past the older batch (a source must deliver in stamp order), so
     // for N=1 the second sentence is only checked inside one window.
-    let check_apply = N == 2 || regime == Regime::Window;
+    // With gaps (operations an origin issued that never reached a replica) only the first sentence is stated.
+    let check_apply = regime != Regime::Gaps && (N == 2 || regime == Regime::Window);
+    if regime == Regime::Gaps {
+        out.count("pairs_with_gaps", 1);
+        // the situation the first sentence distinguishes: the replica HOLDS the key, the peer's entry is
+        // newer, and the replica's cut-off for that origin already lies beyond the peer's stamp
+        let (pl, pd) = enumerate(&b);
+        let (rl, rd) = enumerate(&a);
+        let held: BTreeMap<u64, HLCTimestamp> = rl.iter().chain(rd.iter()).copied().collect();
+        for (k, t) in pl.iter().chain(pd.iter()) {
+            if held.get(k).map_or(false, |mine| mine < t) && !a.will_apply((*k + 1_000_000) as u64, *t) {
+                out.count("held_key_newer_at_peer_but_older_than_cutoff", 1);
+            }
+        }
+    }
     c05_check(&a, &b, keys, check_apply, &mut out, &ctx);
     if !out.violations.is_empty() {
         out.replay = Some(json!({"mode": "random", "seed": seed, "index": i, "sources": N, "regime": format!("{regime:?}"), "stream": stream}));
@@ -923,11 +978,11 @@ pub fn c05(args: &Args) {
     let mut report = Report::new(
         args,
         "E0-crdt",
-        "replica pairs built as in C03 (gap-free-prefix with hour-scale gaps / one-window), N=1 and N=2 sources. (1) real diff(replica, peer) compared as sets, kind and stamp included, with a reference diff computed from observations only (listings + will_apply for unknown keys). (2) the returned lists applied the way the keyspace actor applies a batch (filter by will_apply, sort by stamp, read-repair source) removals-first and modifications-first: a second diff must be empty; mutual repair in all 4 order combinations must give equal lookups. Non-trivial = the two replicas differ; distinct = distinct (listing, listing).",
+        "replica pairs built as in C03 (gap-free-prefix with hour-scale gaps / one-window) and a third regime in which replicas MISSED operations of an origin (hour scale; first sentence only), N=1 and N=2 sources. (1) real diff(replica, peer) compared as sets, kind and stamp included, with a reference diff computed from observations only (listings + will_apply for unknown keys). (2) the returned lists applied the way the keyspace actor applies a batch (filter by will_apply, sort by stamp, read-repair source) removals-first and modifications-first: a second diff must be empty; mutual repair in all 4 order combinations must give equal lookups. Non-trivial = the two replicas differ; distinct = distinct (listing, listing).",
     );
     if let Some(path) = &args.replay {
         let r = read_replay(path);
-        let regime = if r["regime"] == "Prefix" { Regime::Prefix } else { Regime::Window };
+        let regime = if r["regime"] == "Prefix" { Regime::Prefix } else if r["regime"] == "Gaps" { Regime::Gaps } else { Regime::Window };
         let (seed, i, stream) = (r["seed"].as_u64().unwrap(), r["index"].as_u64().unwrap(), r["stream"].as_u64().unwrap());
         let out = if r["sources"].as_u64() == Some(1) { c05_case::<1>(seed, i, regime, stream) } else { c05_case::<2>(seed, i, regime, stream) };
         report.absorb(out);
@@ -936,7 +991,7 @@ pub fn c05(args: &Args) {
     }
     let n = args.pick(2_000_000, 30_000_000);
     let seed = args.seed;
-    for (regime, stream) in [(Regime::Prefix, 0xC05A), (Regime::Window, 0xC05B)] {
+    for (regime, stream) in [(Regime::Prefix, 0xC05A), (Regime::Window, 0xC05B), (Regime::Gaps, 0xC05C)] {
         run_cases(&mut report, n, args.threads, Duration::from_secs(args.pick(60, 900)), |i| {
             if i % 3 == 0 {
                 c05_case::<1>(seed, i, regime, stream)
@@ -945,6 +1000,7 @@ pub fn c05(args: &Args) {
             }
         });
     }
+    report.floor("held_key_newer_at_peer_but_older_than_cutoff", 1_000);
     report.finish(args);
 }
 
@@ -964,6 +1020,10 @@ fn c08_case(seed: u64, i: u64) -> CaseOut {
     let mut issued: Vec<Vec<(u64, HLCTimestamp, bool)>> = vec![Vec::new(); origins as usize];
     let mut purged_total = 0u64;
     let mut trace = Vec::new();
+    // every tombstone purged so far: the protection must last, not only hold right after the purge
+    let mut purged: Vec<(u64, HLCTimestamp)> = Vec::new();
+    let mut pending: Vec<(u64, HLCTimestamp, bool)> = Vec::new();
+    let mut late = 0u64;
     let steps = rng.gen_range(8..40);
     for _ in 0..steps {
         if rng.gen_bool(0.2) {
@@ -984,37 +1044,23 @@ fn c08_case(seed: u64, i: u64) -> CaseOut {
                 out.violate("C08:purge-removed-something-else-than-reported-tombstones", json!({"before": listing_json(&before), "after": listing_json(&after), "reported": rem.iter().map(|(k, t)| json!([k, ts_json(*t)])).collect::<Vec<_>>()}));
             }
             purged_total += removed.len() as u64;
-            // ---- afterwards: nothing from the deleting node that is not newer
-            // than the purged delete may be accepted (any key, any source)
-            for (pk, pt) in &removed {
-                let o = pt.node() as usize;
-                let mut probes: Vec<(u64, HLCTimestamp, bool)> = issued[o].iter().filter(|e| e.1 <= *pt).copied().collect();
-                probes.push((*pk, *pt, false));
-                probes.push((*pk, *pt, true));
-                let ms = pt.datacake_timestamp().as_millis() as u64;
-                if ms >= 4 {
-                    probes.push((*pk, ts(ms - 4, 0, pt.node()), false));
-                    probes.push(((*pk + 1) % keys, ts(ms - 4, 60000, pt.node()), true));
-                }
-                for (k, t, del) in probes {
-                    for kind_del in [del, !del] {
-                        for src in 0..2 {
-                            let snapshot = enumerate(&set);
-                            let wa = set.will_apply(k, t);
-                            let mut trial = set.clone();
-                            let ret = if kind_del { trial.delete_with_source(src, k, t) } else { trial.insert_with_source(src, k, t) };
-                            out.count("post_purge_probes", 1);
-                            if wa || ret || enumerate(&trial) != snapshot {
-                                out.violate(
-                                    "C08:operation-not-newer-than-purged-delete-accepted",
-                                    json!({"purged": [pk, ts_json(*pt)], "probe": {"key": k, "ts": ts_json(t), "del": kind_del, "src": src},
-                                        "will_apply": wa, "returned": ret, "state_changed": enumerate(&trial) != snapshot, "trace": trace}),
-                                );
-                            }
-                        }
-                    }
+            purged.extend(removed.iter().copied());
+            c08_reprobe(&set, &purged, &issued, keys, &trace, "right-after-the-purge", &mut out);
+            continue;
+        }
+        // an operation held back earlier arrives now, behind newer ones of its origin
+        if !pending.is_empty() && rng.gen_bool(0.3) {
+            let (key, t, del) = pending.swap_remove(rng.gen_range(0..pending.len()));
+            let via = rng.gen_range(0..3);
+            for src in 0..2 {
+                if via == 2 || via == src {
+                    let op = Op { key, ts: t, del, src };
+                    apply(&mut set, &op);
+                    trace.push(json!({"late": op_json(&op)}));
+                    late += 1;
                 }
             }
+            c08_reprobe(&set, &purged, &issued, keys, &trace, "after-a-late-operation", &mut out);
             continue;
         }
         let o = rng.gen_range(0..origins) as usize;
@@ -1024,6 +1070,11 @@ fn c08_case(seed: u64, i: u64) -> CaseOut {
         let key = rng.gen_range(0..keys);
         let del = rng.gen_bool(0.5);
         issued[o].push((key, t, del));
+        if rng.gen_bool(0.2) {
+            // held back: reaches the replica later (or never), out of order
+            pending.push((key, t, del));
+            continue;
+        }
         // the op reaches the replica through one or both sources (direct + repair)
         let via = rng.gen_range(0..3);
         for src in 0..2 {
@@ -1033,7 +1084,11 @@ fn c08_case(seed: u64, i: u64) -> CaseOut {
                 trace.push(op_json(&op));
             }
         }
+        if !purged.is_empty() {
+            c08_reprobe(&set, &purged, &issued, keys, &trace, "after-later-operations", &mut out);
+        }
     }
+    out.count("late_operations", late);
     out.count("tombstones_purged", purged_total);
     out.count("steps", steps as u64);
     if purged_total > 0 {
@@ -1048,11 +1103,54 @@ fn c08_case(seed: u64, i: u64) -> CaseOut {
     out
 }
 
+/// For every tombstone purged so far: no operation of the deleting origin that is not newer than
+/// the purged delete may be accepted (any key, both kinds, any source).
+fn c08_reprobe(
+    set: &OrSWotSet<2>,
+    purged: &[(u64, HLCTimestamp)],
+    issued: &[Vec<(u64, HLCTimestamp, bool)>],
+    keys: u64,
+    trace: &[Value],
+    when: &str,
+    out: &mut CaseOut,
+) {
+    let snapshot = enumerate(set);
+    for (pk, pt) in purged {
+        let o = pt.node() as usize;
+        let mut probes: Vec<(u64, HLCTimestamp, bool)> = issued[o].iter().filter(|e| e.1 <= *pt).copied().collect();
+        probes.push((*pk, *pt, false));
+        probes.push((*pk, *pt, true));
+        let ms = pt.datacake_timestamp().as_millis() as u64;
+        if ms >= 4 {
+            probes.push((*pk, ts(ms - 4, 0, pt.node()), false));
+            probes.push(((*pk + 1) % keys, ts(ms - 4, 60000, pt.node()), true));
+        }
+        for (k, t, del) in probes {
+            for kind_del in [del, !del] {
+                for src in 0..2 {
+                    let wa = set.will_apply(k, t);
+                    let mut trial = set.clone();
+                    let ret = if kind_del { trial.delete_with_source(src, k, t) } else { trial.insert_with_source(src, k, t) };
+                    out.count("post_purge_probes", 1);
+                    if wa || ret || enumerate(&trial) != snapshot {
+                        out.violate(
+                            format!("C08:operation-not-newer-than-purged-delete-accepted:{when}"),
+                            json!({"purged": [pk, ts_json(*pt)], "probe": {"key": k, "ts": ts_json(t), "del": kind_del, "src": src},
+                                "will_apply": wa, "returned": ret, "state_changed": enumerate(&trial) != snapshot, "trace": trace}),
+                        );
+                        return;
+                    }
+                }
+            }
+        }
+    }
+}
+
 pub fn c08_local(args: &Args) {
     let mut report = Report::new(
         args,
         "E0-crdt",
-        "local facts: OrSWotSet<2> driven with hour-scale histories (3 origins, 4 keys, each origin's ops in stamp order through source 0, 1 or both) with purge_old_deletes at random points. At every purge: get() of every key and the live listing unchanged, exactly the reported tombstones disappear; afterwards every operation of the deleting origin with stamp <= the purged delete (all issued ones plus boundary probes, both kinds, both sources, any key) must have will_apply=false, return false and leave the listing unchanged. Non-trivial = at least one tombstone was actually purged; distinct = distinct operation traces.",
+        "local facts: OrSWotSet<2> driven with hour-scale histories (3 origins, 4 keys, each origin's ops in stamp order through source 0, 1 or both) with purge_old_deletes at random points; a fifth of the operations is held back and arrives later, behind newer operations of its origin (or never). At every purge: get() of every key and the live listing unchanged, exactly the reported tombstones disappear; afterwards AND AFTER EVERY LATER STEP of the history every operation of the deleting origin with stamp <= the purged delete (all issued ones plus boundary probes, both kinds, both sources, any key) must have will_apply=false, return false and leave the listing unchanged. Non-trivial = at least one tombstone was actually purged; distinct = distinct operation traces.",
     );
     if let Some(path) = &args.replay {
         let r = read_replay(path);
